@@ -150,6 +150,43 @@ def upload_templates(ctx):
                 elif st.get('srv->Blk.Size') != 300 or st.get('srv->Blk.Len') != 300 or st.get('srv->Blk.SegOk') != 0:
                     bad = 'transfer state Size %s Len %s SegOk %s' % (st.get('srv->Blk.Size'), st.get('srv->Blk.Len'), st.get('srv->Blk.SegOk'))
         _rep(ctx, P, 'RF13-upload', f, 'initiate block upload blksize=%d' % blk, bad)
+    # every object that cannot be a basic type (more than 4 bytes: strings, domains, user types) is REWOUND when a block
+    # upload is initiated - the boundary is 4, not "fits into one segment": a 5..7 byte string that is not rewound answers
+    # with whatever an earlier transfer left in the buffer / continues at a stale offset
+    for size in (5, 6, 7, 8, 300):
+        trs = _run(m, f, {'call:COSdoGetObject': NONE, 'call:COSdoGetSize': size, 'srv->Frm->Data[4]': 20, 'call:COObjRdBufStart': NONE,
+                          'srv->Buf.Cur': 0x5000}, filt=FRM)
+        bad = None
+        for t in trs:
+            if t.ret == ABRT:
+                continue
+            if t.call_names().count('COObjRdBufStart') != 1:
+                bad = 'object of %d bytes: COObjRdBufStart called %d times, required once (rewind of a streaming object)' % (
+                    size, t.call_names().count('COObjRdBufStart'))
+        if not trs or all(t.ret == ABRT for t in trs):
+            bad = 'no accepting path for the bound inputs (the row would pass vacuously)'
+        _rep(ctx, P + ['C05'], 'RF13-upload', f, 'initiate block upload of a %d byte object: rewound' % size, bad)
+    for (fi, acc, extra, props_) in (('COSdoInitDownloadSegmented', 'COObjWrBufStart', {}, ['C02', 'C05']),
+                                    ('COSdoInitDownloadBlock', 'COObjWrBufStart', {}, ['C02', 'C05'])):
+        if fi not in m.funcs:
+            continue
+        for size in (5, 6, 7, 8, 300):
+            inp = {'call:COSdoGetObject': NONE, 'call:COSdoGetSize': size, 'call:' + acc: NONE, 'srv->Buf.Cur': 0x5000,
+                   'srv->Frm->Data[0]': 0x21 if 'Segmented' in fi else 0xC2}
+            for j_ in range(4):
+                inp['srv->Frm->Data[%d]' % (4 + j_)] = (size >> (8 * j_)) & 0xFF
+            inp.update(extra)
+            trs = _run(m, fi, inp, filt=FRM)
+            bad = None
+            for t in trs:
+                if t.ret == ABRT:
+                    continue
+                if t.call_names().count(acc) != 1:
+                    bad = 'object of %d bytes: %s called %d times, required once (rewind of a streaming object)' % (
+                        size, acc, t.call_names().count(acc))
+            if not trs or all(t.ret == ABRT for t in trs):
+                bad = 'no accepting path for the bound inputs (the row would pass vacuously)'
+            _rep(ctx, props_, 'RF13-download', fi, 'initiate download of a %d byte object: rewound' % size, bad)
     # acknowledge: end of transfer C1h | n<<2 ; new block size taken from byte 2
     f = 'COSdoAckUploadBlock'
     for lastvalid in (1, 4, 7):
